@@ -93,11 +93,14 @@ func (dm *DagModifier) WriteAt(b []byte, offset int64) (int, error) {
 	// TODO: this is currently VERY inefficient
 	// each write that happens at an offset other than the current one causes a
 	// flush to disk, and dag rewrite
-	if offset == int64(dm.writeStart) && dm.wrBuf != nil && len(b) >= dm.wrBuf.Len() {
+	switch {
+	case dm.wrBuf != nil && uint64(offset) == dm.writeStart+uint64(dm.wrBuf.Len()):
+		// Continues the pending write, nothing to prepare.
+	case dm.wrBuf != nil && uint64(offset) == dm.writeStart && len(b) >= dm.wrBuf.Len():
 		// We overwrite the whole previous write: drop it. (A shorter write must
 		// not take this path, it would be appended to the pending data.)
 		dm.wrBuf.Reset()
-	} else if uint64(offset) != dm.curWrOff {
+	default:
 		size, err := dm.Size()
 		if err != nil {
 			return 0, err
@@ -116,6 +119,9 @@ func (dm *DagModifier) WriteAt(b []byte, offset int64) (int, error) {
 		dm.writeStart = uint64(offset)
 	}
 
+	// The data is stored at offset: move the cursor there too, so that it stays
+	// in step with the write buffer (Write advances both by len(b)).
+	dm.curWrOff = uint64(offset)
 	return dm.Write(b)
 }
 
